@@ -56,28 +56,29 @@ func writeEvidence(cfg checkCfg, b *Built, ag *agg, corpus map[string][3]int, si
 		return float64(n) / hours
 	}
 	faults := map[string]any{
-		"preempt":             ag.stats.Preempts,
-		"same_object_preempt": ag.stats.SameObjPreempts,
-		"op_boundary_yields":  ag.stats.OpBoundary,
-		"history_shift_runs":  ag.runs - ag.coldRuns,
-		"cold_first_runs":     ag.coldRuns,
-		"map_order":           ag.stats.MapPerms,
-		"clock_reads":         ag.stats.ClockReads,
-		"clock_jump":          ag.stats.ClockJumps,
-		"pool_get":            ag.stats.PoolGets,
-		"pool_drop":           ag.stats.PoolDrops,
-		"pool_steal":          ag.stats.PoolSteals,
-		"lock_contend":        ag.stats.LockContend,
-		"rand_draws":          ag.stats.RandDraws,
-		"library_go_spawns":   ag.stats.GoSpawns,
-		"sim_sync_operations": ag.stats.SyncOps,
-		"starvation_guards":   ag.stats.StarveGuards,
-		"task_stall":          ag.stats.Naps,
-		"channel_operations":  ag.stats.ChanOps,
-		"select_statements":   ag.stats.Selects,
-		"timers_fired":        ag.stats.TimersFired,
-		"leaked_library_goroutines": ag.stats.LeakedTasks,
-		"note":                "kinds with 0 sites in the tree under test cannot fire; see seams_rewritten",
+		"preempt":                           ag.stats.Preempts,
+		"same_object_preempt":               ag.stats.SameObjPreempts,
+		"op_boundary_yields":                ag.stats.OpBoundary,
+		"history_shift_runs":                ag.runs - ag.coldRuns,
+		"cold_first_runs":                   ag.coldRuns,
+		"map_order":                         ag.stats.MapPerms,
+		"clock_reads":                       ag.stats.ClockReads,
+		"clock_jump":                        ag.stats.ClockJumps,
+		"pool_get":                          ag.stats.PoolGets,
+		"pool_drop":                         ag.stats.PoolDrops,
+		"pool_steal":                        ag.stats.PoolSteals,
+		"lock_contend":                      ag.stats.LockContend,
+		"rand_draws":                        ag.stats.RandDraws,
+		"library_go_spawns":                 ag.stats.GoSpawns,
+		"sim_sync_operations":               ag.stats.SyncOps,
+		"starvation_guards":                 ag.stats.StarveGuards,
+		"task_stall":                        ag.stats.Naps,
+		"channel_operations":                ag.stats.ChanOps,
+		"select_statements":                 ag.stats.Selects,
+		"timers_fired":                      ag.stats.TimersFired,
+		"forced_gc_with_finalizers_drained": ag.stats.ForcedGCs,
+		"leaked_library_goroutines":         ag.stats.LeakedTasks,
+		"note":                              "kinds with 0 sites in the tree under test cannot fire; see seams_rewritten",
 	}
 	samples := []json.RawMessage{}
 	samples = append(samples, ag.samples...)
@@ -96,21 +97,21 @@ func writeEvidence(cfg checkCfg, b *Built, ag *agg, corpus map[string][3]int, si
 			"distinct_nontrivial": len(ag.nontrivFP),
 			"rule": "one evaluation = one simulated run: a seeded pool of shared Ecosystem/Version/VersionRange values, 2-8 client tasks with seeded programs of API calls, one seeded schedule deciding which task executes each statement of library code, all oracles evaluated. " +
 				"distinct_nontrivial counts DISTINCT schedule fingerprints (hash of the sequence of (from-task, to-task, yield-site) over every context switch of the run) among runs in which at least one preemption landed while another task was in the middle of an operation on the same shared object; it is computed by set insertion in the driver.",
-			"samples":                          samples,
-			"exhaustive":                       false,
-			"distinct_schedule_fingerprints":   len(ag.fingerprints),
+			"samples":                            samples,
+			"exhaustive":                         false,
+			"distinct_schedule_fingerprints":     len(ag.fingerprints),
 			"distinct_preempt_resume_site_pairs": len(ag.pairFP),
-			"operations_executed":              ag.ops,
-			"operations_by_kind":               ag.opKinds,
-			"simulated_steps":                  ag.steps,
-			"context_switches":                 ag.stats.Switches,
-			"runs_by_policy":                   ag.policies,
-			"runs_by_task_count":               ag.tasksHist,
-			"runs_per_ecosystem":               ag.ecoRuns,
-			"nontrivial_runs_per_ecosystem":    ag.ecoNontriv,
-			"batches_fresh_processes":          ag.batches,
-			"max_steps_in_one_operation":       ag.stats.MaxOpSteps,
-			"faults_fired":                     faults,
+			"operations_executed":                ag.ops,
+			"operations_by_kind":                 ag.opKinds,
+			"simulated_steps":                    ag.steps,
+			"context_switches":                   ag.stats.Switches,
+			"runs_by_policy":                     ag.policies,
+			"runs_by_task_count":                 ag.tasksHist,
+			"runs_per_ecosystem":                 ag.ecoRuns,
+			"nontrivial_runs_per_ecosystem":      ag.ecoNontriv,
+			"batches_fresh_processes":            ag.batches,
+			"max_steps_in_one_operation":         ag.stats.MaxOpSteps,
+			"faults_fired":                       faults,
 			"yield_site_coverage": map[string]any{
 				"sites_instrumented": len(b.Instr.Sites), "sites_executed": totalExec, "sites_preempted_at": totalPre, "per_package": perPkg,
 				"functions_never_entered": append([]string{}, neverFuncs...),
@@ -123,7 +124,7 @@ func writeEvidence(cfg checkCfg, b *Built, ag *agg, corpus map[string][3]int, si
 			"harness_race_reports":   len(ag.harnessRaces),
 			"determinism_spot_check": map[string]any{"runs_reexecuted": detChecked, "event_log_mismatches": detMismatch},
 			"real_parallel_cross_check": map[string]any{
-				"note": "NOT simulation: same workloads with real goroutines at GOMAXPROCS=16 on the uninstrumented -race build, to catch blind spots of the simulator itself",
+				"note":       "NOT simulation: same workloads with real goroutines at GOMAXPROCS=16 on the uninstrumented -race build, to catch blind spots of the simulator itself",
 				"executions": ag.parRuns, "race_reports": ag.parRaces,
 			},
 			"rates": map[string]any{
@@ -139,11 +140,11 @@ func writeEvidence(cfg checkCfg, b *Built, ag *agg, corpus map[string][3]int, si
 				"simulated": []string{"caller threads (client tasks): which task executes the next statement is decided by the seeded scheduler"},
 				"stubbed_if_used_by_the_tree": map[string]any{
 					"sync -> simsync (Mutex, RWMutex, Once, WaitGroup, Cond, Map.Range order, virtual Pool)": ag.stats.SyncOps,
-					"go statement -> simrt.Go":                         ag.stats.GoSpawns,
+					"go statement -> simrt.Go": ag.stats.GoSpawns,
 					"channel send/receive/close/range -> simrt virtual channels (select is left real)": ag.stats.ChanOps,
-					"map range -> simrt.MapIter":                       ag.stats.MapPerms,
-					"time.Now/Since/Until/Sleep -> simulated clock":    ag.stats.ClockReads,
-					"math/rand top-level -> run PRNG":                  ag.stats.RandDraws,
+					"map range -> simrt.MapIter":                              ag.stats.MapPerms,
+					"time.Now/Since/Until/Sleep -> simulated clock":           ag.stats.ClockReads,
+					"math/rand top-level -> run PRNG":                         ag.stats.RandDraws,
 					"std sync.Pool in race mode: every Put dropped (overlay)": "always on",
 				},
 				"not_run": []string{"cmd/ (CLI entry point; not covered by C19)"},
